@@ -114,6 +114,22 @@ def check_pair(mod, label, tabs, N, rng):
                 bad.append(("%s.ft2:parseval" % label, dict(N=N, delta=delta)))
         if bad:
             break
+    # a shape this process has not transformed before, narrow dtypes FIRST (whatever an earlier call left behind must not matter)
+    if N >= 2:
+        from harness import prop_interp as PI_
+        r_, c_ = N + 3, N + 5
+        Ar, Ac = PI_.centred_dft(r_) * 0.5, PI_.centred_dft(c_) * 0.5
+        base = rng.integers(-3, 4, size=(r_, c_))
+        seq = [("int64-mask", (base > 0).astype(np.int64)), ("float32", (base * 0.37).astype(np.float32)), ("float64", base * 0.37 + 0.011),
+               ("complex128", base * 0.37 + 1j * rng.standard_normal((r_, c_)))]
+        for nm, arr in seq:
+            got = np.asarray(mod.ft2(arr.copy(), 0.5))
+            want = Ar.dot(np.asarray(arr, complex)).dot(Ac.T)
+            tl = 3e-5 if nm == "float32" else 1e-11
+            if got.shape != want.shape or not np.allclose(got, want, rtol=0, atol=tl * r_ * c_ * max(1.0, np.abs(want).max())):
+                bad.append(("%s.ft2:depends-on-dtype-of-an-earlier-call-with-this-shape" % label, dict(shape=[r_, c_], dtype=nm,
+                                                                                                       err=float(np.abs(got - want).max()) if got.shape == want.shape else None)))
+                break
     # real-dtype arrays are complex arrays with zero imaginary part, for EVERY function (a real spectrum has a complex inverse)
     if N >= 1:
         xr1 = rng.standard_normal((2, N))
